@@ -424,6 +424,90 @@ def one_history(ctx, index, rng: random.Random):
     rec.case(log, nontrivial, cls=f"{d}d/{len(seen)}dtypes", sample={"log": log[:14], "dtypes": sorted(seen)})
 
 
+def narrow_count_case(ctx, index, rng: random.Random):
+    """Counting into a compact integer content type (int16 / int32) whose bins are close to the top of the type: further fills either
+    widen the type or keep the exact counts - they never wrap around; contents and squared errors handed to the constructor are kept as
+    they are (promoting the type) or refused - never truncated or wrapped."""
+    import physt
+    from physt.histogram1d import Histogram1D
+    from physt.histogram_nd import Histogram2D
+
+    rec = ctx.rec
+    rec.mon("C13.rules")
+    if rng.random() < 0.35:
+        # constructor: given contents / squared errors that are not numbers of the (given or implied) content type
+        edges = np.array([0.0, 1.0, 2.0])
+        which = rng.choice(["errors2_fraction", "errors2_too_big", "frequencies_fraction_int_dtype"])
+        try:
+            with warnings.catch_warnings():
+                warnings.simplefilter("ignore")
+                if which == "errors2_fraction":
+                    given_f, given_e = [1, 2], [0.25, rng.choice([0.5, 1.75])]
+                    h = Histogram1D(edges, np.array(given_f), errors2=np.array(given_e))
+                elif which == "errors2_too_big":
+                    given_f, given_e = [100, 265], [10000, 70225]
+                    h = Histogram1D(edges, np.array(given_f, dtype=np.int16), errors2=np.array(given_e))
+                else:
+                    given_f, given_e = [1.5, 2.5], [1.5, 2.5]
+                    h = Histogram1D(edges, np.array(given_f), dtype=rng.choice([np.int64, "int32"]))
+        except (ValueError, OverflowError, TypeError):
+            rec.case(["ctor", which], True, cls=f"narrow/ctor/{which}/refused")
+            return
+        with attach.quiet():
+            gf, ge = np.asarray(h.frequencies, dtype=float), np.asarray(h.errors2, dtype=float)
+            if not (np.array_equal(gf, np.asarray(given_f, dtype=float)) and np.array_equal(ge, np.asarray(given_e, dtype=float))):
+                rec.fail(monitor="C13.rules", op=f"constructor/{which}", symptom="contents / squared errors given to the constructor were truncated or wrapped into the content type", diff=["frequencies", "errors2"],
+                         detail={"given": [given_f, given_e], "stored": [gf.tolist(), ge.tolist()], "dtype": str(h.dtype)})
+            for pr in snap.dtype_problems(h):
+                rec.fail(monitor="C13.rules", op=f"constructor/{which}", symptom=pr, diff=["dtype"], detail={})
+        rec.case(["ctor", which], True, cls=f"narrow/ctor/{which}/{np.dtype(h.dtype)}")
+        return
+    dt = rng.choice(["int16", "int32"])
+    top = int(np.iinfo(dt).max)
+    d = rng.choice([1, 1, 2])
+    start = top - rng.randint(0, 40)
+    k = rng.randint(1, 80)
+    how = rng.choice(["fill_n", "fill_n", "fill", "fill_numpy_weight", "fill_n_int_weights"])
+    try:
+        if d == 1:
+            h = Histogram1D(np.array([0.0, 1.0, 2.0]), np.array([start, 3], dtype=dt))
+            pts = np.full(k, 0.5)
+        else:
+            h = Histogram2D([np.array([0.0, 1.0, 2.0]), np.array([0.0, 1.0])], np.array([[start], [3]], dtype=dt))
+            pts = np.full((k, 2), 0.5)
+        added = k
+        with warnings.catch_warnings():
+            warnings.simplefilter("ignore")
+            if how == "fill_n":
+                h.fill_n(pts)
+            elif how == "fill_n_int_weights":
+                h.fill_n(pts, weights=np.ones(k, dtype=rng.choice([np.int16, np.int32, np.int64])))
+            elif how == "fill":
+                for p_ in pts:
+                    h.fill(float(p_) if d == 1 else p_)
+            else:
+                for p_ in pts:
+                    h.fill(float(p_) if d == 1 else p_, np.dtype(dt).type(1))
+    except (OverflowError, ValueError) as ex:
+        rec.case(["narrow", dt, d, start, k, how], True, cls=f"narrow/{dt}/{d}d/{how}/refused")
+        return
+    except Exception as ex:
+        rec.fail(monitor="C13.rules", op=how, symptom=f"counting into a compact integer histogram raised {type(ex).__name__}", diff=["raised"], detail={"error": str(ex)[:140], "dtype": dt})
+        return
+    with attach.quiet():
+        f = np.asarray(h.frequencies).ravel()
+        e = np.asarray(h.errors2).ravel()
+        want = start + added
+        if int(f[0]) != want or int(e[0]) != want or int(f[1]) != 3:
+            rec.fail(monitor="C13.rules", op=how, symptom="counts added to a compact integer histogram wrapped around (or were lost) instead of widening the content type", diff=["frequencies", "errors2"],
+                     detail={"dtype_before": dt, "dtype_after": str(h.dtype), "start": start, "added": added, "frequencies": f.tolist(), "errors2": e.tolist(), "dim": d})
+        for pr in snap.dtype_problems(h):
+            rec.fail(monitor="C13.rules", op=how, symptom=pr, diff=["dtype"], detail={})
+        if np.dtype(h.dtype).kind not in "iu":
+            rec.fail(monitor="C13.rules", op=how, symptom="unweighted counting left the integer types", diff=["dtype"], detail={"after": str(h.dtype)})
+    rec.case(["narrow", dt, d, start, k, how], start + added > top, cls=f"narrow/{dt}/{d}d/{how}/{np.dtype(h.dtype)}")
+
+
 def attach_monitors(ctx):
     ctx.world = World(passive=False)
     attach_world(ctx.world)
@@ -444,6 +528,7 @@ def attach_passive():
 def run(ctx):
     attach_monitors(ctx)
     ctx.run_cases(ctx.scale(500, 4000), one_history, salt="dtype")
+    ctx.run_cases(ctx.scale(120, 800), narrow_count_case, salt="narrow")
     # the chunk-addition workload of C05 mixes int64 / float64 chunks on adaptive grids: its dtype records belong here
     from . import C05
 
